@@ -121,17 +121,24 @@ def explore(run, params, budget, *, start_prefix=(), max_exec=None,
     unexplored prefixes are appended to ``leftover`` (if given) or cap_hit is set.
     """
     st = stats or Stats()
-    stack = [list(start_prefix)]
+    if isinstance(start_prefix, dict):
+        # a group of sibling prefixes handed back by an earlier, capped call (see _pack)
+        base = start_prefix['base']
+        stack = [_Kid(base, i, alt) for i, alt in start_prefix['kids']]
+    else:
+        stack = [list(start_prefix)]
     seen_sig = set()
     while stack:
         if (max_exec is not None and st.executions >= max_exec) or \
                 (deadline is not None and time.time() > deadline):
             if leftover is not None:
-                leftover.extend(stack)
+                leftover.extend(_pack(stack))
             else:
                 st.cap_hit = True
             break
         prefix = stack.pop()
+        if isinstance(prefix, _Kid):
+            prefix = prefix.base[:prefix.i] + [prefix.alt]
         ch = Chooser(prefix)
         out = run(params, ch)
         st.executions += 1
@@ -164,15 +171,52 @@ def explore(run, params, budget, *, start_prefix=(), max_exec=None,
         # children: deviate at every point after the forced prefix
         cost_before = 0
         kids = []
+        # the siblings share one copy of this execution's picks: a prefix is materialised
+        # only when it is run (an execution of n points has O(n) children of length O(n))
+        base = [t[2] for t in ch.trace]
         for i, (label, costs, pick) in enumerate(ch.trace):
             if i >= len(prefix):
                 for alt in range(1, len(costs)):
                     if cost_before + costs[alt] <= budget:
-                        kids.append(ch_prefix(ch, i, alt))
+                        kids.append(_Kid(base, i, alt))
             cost_before += costs[pick]
         # push in reverse so the shallowest deviation is explored first
         stack.extend(reversed(kids))
     return st
+
+
+class _Kid:
+    """The prefix base[:i] + [alt], not yet materialised."""
+    __slots__ = ('base', 'i', 'alt')
+
+    def __init__(self, base, i, alt):
+        self.base, self.i, self.alt = base, i, alt
+
+
+PACK = 32
+
+
+def _pack(stack):
+    """Unexplored stack entries as picklable start prefixes, in stack order: plain lists stay,
+    runs of siblings become groups {'base': picks, 'kids': [[i, alt], ...]} of at most PACK
+    members (so that other workers can share them)."""
+    out = []
+    cur = None
+    for e in stack:
+        if isinstance(e, _Kid):
+            if cur is not None and cur['base'] is e.base and len(cur['kids']) < PACK:
+                cur['kids'].append([e.i, e.alt])
+            else:
+                cur = {'base': e.base, 'kids': [[e.i, e.alt]]}
+                out.append(cur)
+        else:
+            cur = None
+            out.append(e)
+    for g in out:
+        if isinstance(g, dict):
+            # only the part of the base that some member uses
+            g['base'] = g['base'][:max(i for i, _ in g['kids'])]
+    return out
 
 
 def ch_prefix(ch, i, alt):
